@@ -39,20 +39,75 @@ func (gen *generator) createTypeDefs() error {
 	//     (without bodies).
 	gen.new.typeDefs = make(map[string]types.Type)
 	for typeName, old := range gen.old.typeDefs {
-		// track is used to identify self-referential named types.
-		track := make(map[string]bool)
-		t, err := newType(typeName, old.Typ(), gen.old.typeDefs, track)
+		if _, ok := old.Typ().(*ast.NamedType); ok {
+			// Type alias (e.g. `%a = type %b`); resolved below, once the
+			// scaffolding IR type definition of the aliased type has been created.
+			continue
+		}
+		gen.new.typeDefs[typeName] = newType(typeName, old.Typ())
+	}
+	// Resolve type aliases to the scaffolding IR type definition of the aliased
+	// type, so that both type names denote the very same type.
+	for typeName, old := range gen.old.typeDefs {
+		if _, ok := old.Typ().(*ast.NamedType); !ok {
+			continue
+		}
+		aliased, err := resolveTypeAlias(typeName, gen.old.typeDefs)
 		if err != nil {
 			return errors.WithStack(err)
+		}
+		t, ok := gen.new.typeDefs[aliased]
+		if !ok {
+			return errors.Errorf("unable to locate type identifier %q", enc.TypeName(aliased))
 		}
 		gen.new.typeDefs[typeName] = t
 	}
 	return nil
 }
 
-// newType returns a new IR type (without body) based on the given AST type.
-// Named types are resolved to their underlying type through lookup in index. An
-// error is returned for (potentially recursive) self-referential name types.
+// newType returns a new IR type (without body) based on the given AST type,
+// which must not be a named type.
+func newType(typeName string, old ast.LlvmNode) types.Type {
+	switch old := old.(type) {
+	case *ast.VoidType:
+		return &types.VoidType{TypeName: typeName}
+	case *ast.FuncType:
+		return &types.FuncType{TypeName: typeName}
+	case *ast.IntType:
+		return &types.IntType{TypeName: typeName}
+	case *ast.FloatType:
+		return &types.FloatType{TypeName: typeName}
+	case *ast.MMXType:
+		return &types.MMXType{TypeName: typeName}
+	case *ast.PointerType:
+		return &types.PointerType{TypeName: typeName}
+	case *ast.VectorType:
+		return &types.VectorType{TypeName: typeName}
+	case *ast.ScalableVectorType:
+		return &types.VectorType{TypeName: typeName}
+	case *ast.LabelType:
+		return &types.LabelType{TypeName: typeName}
+	case *ast.TokenType:
+		return &types.TokenType{TypeName: typeName}
+	case *ast.MetadataType:
+		return &types.MetadataType{TypeName: typeName}
+	case *ast.ArrayType:
+		return &types.ArrayType{TypeName: typeName}
+	case *ast.OpaqueType:
+		return &types.StructType{TypeName: typeName}
+	case *ast.StructType:
+		return &types.StructType{TypeName: typeName}
+	case *ast.PackedStructType:
+		return &types.StructType{TypeName: typeName}
+	default:
+		panic(fmt.Errorf("support for type %T not yet implemented", old))
+	}
+}
+
+// resolveTypeAlias returns the name of the type definition that the type alias
+// with the given name refers to, following chains of aliases through lookup in
+// index. An error is returned for (potentially recursive) self-referential name
+// types.
 //
 // For instance, the following is disallowed.
 //
@@ -67,57 +122,28 @@ func (gen *generator) createTypeDefs() error {
 //
 //	; struct type containing pointer to itself.
 //	%d = type { %d* }
-func newType(typeName string, old ast.LlvmNode, index map[string]*ast.TypeDef, track map[string]bool) (types.Type, error) {
-	switch old := old.(type) {
-	case *ast.VoidType:
-		return &types.VoidType{TypeName: typeName}, nil
-	case *ast.FuncType:
-		return &types.FuncType{TypeName: typeName}, nil
-	case *ast.IntType:
-		return &types.IntType{TypeName: typeName}, nil
-	case *ast.FloatType:
-		return &types.FloatType{TypeName: typeName}, nil
-	case *ast.MMXType:
-		return &types.MMXType{TypeName: typeName}, nil
-	case *ast.PointerType:
-		return &types.PointerType{TypeName: typeName}, nil
-	case *ast.VectorType:
-		return &types.VectorType{TypeName: typeName}, nil
-	case *ast.ScalableVectorType:
-		return &types.VectorType{TypeName: typeName}, nil
-	case *ast.LabelType:
-		return &types.LabelType{TypeName: typeName}, nil
-	case *ast.TokenType:
-		return &types.TokenType{TypeName: typeName}, nil
-	case *ast.MetadataType:
-		return &types.MetadataType{TypeName: typeName}, nil
-	case *ast.ArrayType:
-		return &types.ArrayType{TypeName: typeName}, nil
-	case *ast.OpaqueType:
-		return &types.StructType{TypeName: typeName}, nil
-	case *ast.StructType:
-		return &types.StructType{TypeName: typeName}, nil
-	case *ast.PackedStructType:
-		return &types.StructType{TypeName: typeName}, nil
-	case *ast.NamedType:
+func resolveTypeAlias(typeName string, index map[string]*ast.TypeDef) (string, error) {
+	// track is used to identify self-referential named types.
+	track := make(map[string]bool)
+	for {
+		def, ok := index[typeName]
+		if !ok {
+			return "", errors.Errorf("unable to locate type identifier %q", enc.TypeName(typeName))
+		}
+		old, ok := def.Typ().(*ast.NamedType)
+		if !ok {
+			return typeName, nil
+		}
 		if track[typeName] {
 			names := make([]string, 0, len(track))
 			for name := range track {
 				names = append(names, enc.TypeName(name))
 			}
 			sort.Strings(names)
-			return nil, errors.Errorf("invalid named type; self-referential with type name(s) %s", strings.Join(names, ", "))
+			return "", errors.Errorf("invalid named type; self-referential with type name(s) %s", strings.Join(names, ", "))
 		}
 		track[typeName] = true
-		newIdent := localIdent(old.Name())
-		newName := getTypeName(newIdent)
-		newDef, ok := index[newName]
-		if !ok {
-			return nil, errors.Errorf("unable to locate type identifier %q", enc.TypeName(newName))
-		}
-		return newType(newName, newDef.Typ(), index, track)
-	default:
-		panic(fmt.Errorf("support for type %T not yet implemented", old))
+		typeName = getTypeName(localIdent(old.Name()))
 	}
 }
 
